@@ -5,14 +5,14 @@ from conductor.config import COND_FILE_NAME
 from conductor.errors import InvalidTaskIdentifier
 
 IDENTIFIER_GROUP = "[a-zA-Z0-9_-]+"
-_NAME_REGEX = re.compile("^{}$".format(IDENTIFIER_GROUP))
+_NAME_REGEX = re.compile("^{}\\Z".format(IDENTIFIER_GROUP))
 _TASK_IDENTIFIER_REGEX = re.compile(
-    "^(//)?(?P<path>({ident}/)*({ident})?):(?P<name>{ident})$".format(
+    "^(//)?(?P<path>({ident}/)*({ident})?):(?P<name>{ident})\\Z".format(
         ident=IDENTIFIER_GROUP,
     ),
 )
 _RELATIVE_TASK_IDENTIFIER_REGEX = re.compile(
-    "^:(?P<name>{ident})$".format(ident=IDENTIFIER_GROUP)
+    "^:(?P<name>{ident})\\Z".format(ident=IDENTIFIER_GROUP)
 )
 
 
